@@ -492,6 +492,11 @@ def write_evidence(prop, payload):
         json.dump(payload, f, indent=1, sort_keys=True)
         f.write("\n")
     os.replace(tmp, path)
+    if payload.get("tier") == "thorough":
+        # keep the deep run's evidence next to the file that every quick run rewrites
+        tdir = os.path.join(VERIF, "evidence", "thorough")
+        os.makedirs(tdir, exist_ok=True)
+        shutil.copyfile(path, os.path.join(tdir, f"{prop}.json"))
 
 
 def run_check(prop, tier, master, workers, runs_override=None, write=True):
